@@ -65,6 +65,8 @@ where R: Zero + Send + Sync {
 
     cfg_if::cfg_if! { 
         if #[cfg(feature = "multithread")] { 
+            #[cfg(yui_verif)]
+            use yui_verif_rt::sync::Mutex;
             let u = Mutex::new(u);
 
             (0 .. l - 1).into_par_iter().for_each(|i|
